@@ -168,6 +168,7 @@ class Cases(object):
         if accepted and not hasattr(got, "message"):
             accepted = False
             got = Exn("NotARequestObject")
+        self.last = accepted
         if EXACT and not via:
             impl = True if accepted else got
         else:
@@ -924,6 +925,11 @@ def run(ctx):
         fam_empty_required(C, ctx.quick)
         fam_history(C, ctx.quick, ctx.rng)
         fam_random(C, ctx.quick, ctx.rng)
+    # the process time zone and the clock sources (harness/c10_tz.py): own clocks, outside the controlled one above
+    import c10_tz
+    c10_tz.fam_zone_controlled(C, ctx.quick)
+    c10_tz.fam_zone_winter(C, ctx.quick)
+    c10_tz.fam_zone_real_clock(C, ctx.quick)
     ctx.exhaustive = False
     # the regenerated table against the harness's own copy of the documented one (the Coq theorem compares it with the model's)
     rows = {r[0].split(".")[1]: r for r in ctx.extra.get("request_table", [])}
@@ -961,6 +967,9 @@ def replay(ctx, payload):
         print("no concrete input in this replay file (broken obligation / correspondence): see its fields")
         print(json.dumps({k: v for k, v in payload.items() if k != "input"}, indent=1)[:3000])
         return 0
+    if inp.get("tz"):
+        import c10_tz
+        return c10_tz.replay(inp)
     cs, kind, bname, text = inp["cfg"], inp["kind"], inp["binding"], inp["text"]
     print("replay: %s over %s, configuration %s, mutation %s, note %s" % (kind, bname, cs, inp.get("mutation"), inp.get("note")))
     with env.Clock(NOW):
